@@ -31,6 +31,18 @@ SHAPES = {
         {"body": [{"k": "wait", "s": 1}, {"k": "step", "val": 1}]},
         {"body": [{"k": "cb", "between": [{"k": "gate", "name": "slow"}]}]}],
         "body": [], "cfg": {"preset": "all_completed"}}],
+    # the retry attempt of an at-most-once step (READY at the start of a later invocation, or resubmitted in-process) has its own START
+    "amo-retry": [{"k": "step", "script": [{"do": "fail", "cls": "ValueError", "msg": "x"}, {"do": "ok", "val": 1}], "retry": {"decisions": [("retry", 1), ("stop",)]}, "sem": "most"},
+                  {"k": "step", "val": 2, "sem": "most"}],
+    "par-amo-retry": [{"k": "par", "branches": [
+        {"body": [{"k": "step", "script": [{"do": "fail", "cls": "ValueError", "msg": "x"}, {"do": "ok", "val": 1}], "retry": {"decisions": [("retry", 1), ("stop",)]}, "sem": "most"}]},
+        {"body": [{"k": "step", "script": [{"do": "ok", "val": 2, "gate": "slow"}]}, {"k": "step", "val": 3, "sem": "most"}]}], "cfg": {"preset": "all_completed"}}],
+    # one branch hands its record to the pipeline only after the failing call has been answered and the checkpoint thread has
+    # drained its queues (the producer was between its failed-check and its enqueue)
+    "par-late-enqueue": [{"k": "par", "branches": [{"body": [{"k": "step", "val": 1}, {"k": "step", "val": 2}]},
+                                                     {"body": [{"k": "step", "val": 3}, {"k": "step", "val": 4}]},
+                                                     {"body": [{"k": "step", "val": 5}, {"k": "step", "val": 6}]}], "cfg": {"preset": "all_completed"}}, {"k": "step", "val": 9}],
+    "seq-late-enqueue": [{"k": "step", "val": 1}, {"k": "step", "val": 2}],
     "big-result": [{"k": "step", "val": 1}],
     # results large enough that the START and the SUCCEED of one step cannot share a batch (750 KB): the SUCCEED waits in the overflow queue
     "big-step": [{"k": "step", "script": [{"do": "ok", "big": 800 * 1024}]}, {"k": "step", "val": 2}],
@@ -44,7 +56,12 @@ SHAPES = {
 }
 # the sibling in "map-resubmitted" stays inside its step function until the resubmitted branch's refresh checkpoint has been seen
 HOLDS = {"map-resubmitted-no-further-checkpoint": [{"match": {"kind": "gate", "name": "slow"}, "until": {"event": {"kind": "api", "updates": [], "op": "checkpoint"}}, "delay_ms": 30}],
-         "map-resubmitted": [{"match": {"kind": "gate", "name": "slow"}, "until": {"event": {"kind": "api", "updates": [], "op": "checkpoint"}}}]}
+         "map-resubmitted": [{"match": {"kind": "gate", "name": "slow"}, "until": {"event": {"kind": "api", "updates": [], "op": "checkpoint"}}}],
+         "par-amo-retry": [{"match": {"kind": "gate", "name": "slow"}, "until": {"event": {"kind": "api", "updates": [], "op": "checkpoint"}}}],
+         "seq-late-enqueue": [{"match": {"kind": "gate", "name_re": r"^put:STEP:SUCCEED:"}, "until": {"event": {"kind": "api", "has": "fault"}}, "delay_ms": 70}],
+         "par-late-enqueue": [{"match": {"kind": "gate", "name_re": r"^put:STEP:SUCCEED:0/b2/"}, "until": {"event": {"kind": "api", "has": "fault"}}, "delay_ms": 70}]}
+OPTS = {"par-late-enqueue": {"targeted": [{"kind": "queue_put", "match": {"action": "SUCCEED", "type": "STEP"}}], "idle_s": 0.3},
+        "seq-late-enqueue": {"targeted": [{"kind": "queue_put", "match": {"action": "SUCCEED", "type": "STEP"}}], "idle_s": 0.3}}
 
 
 def cases(tier, seed):
@@ -72,7 +89,7 @@ def run_case(case):
         if sname == "big-result":
             prog["ret"] = {"big": 6 * 1024 * 1024 + 100}
         base = {"prog": prog, "seed": case["prog_seed"], "world": {"complete": {}, "timers": "all"}, "holds": HOLDS.get(sname, []),
-                "max_inv": 25, "opts": {"hang_s": 3.0}}
+                "max_inv": 25, "opts": dict({"hang_s": 3.0}, **OPTS.get(sname, {}))}
         r0 = run_scenario(copy.deepcopy(base))
         acc.add(r0, [PROP], cls=None, sc=base)
         napi = sum(1 for e in r0["trace"] if e["kind"] == "api" and e.get("op") == "checkpoint")
@@ -83,6 +100,8 @@ def run_case(case):
                     sc = copy.deepcopy(base)
                     # the failing request is answered at once, or stays in flight long enough for other records to queue up behind it
                     delay = [0, 0, 15, 40][(k + len(str(err))) % 4]
+                    if sname in ("par-late-enqueue", "seq-late-enqueue"):
+                        delay = 40  # the failing call stays in flight while the late producer sits between its failed-check and its enqueue
                     sc["faults"] = [{"match": {"op": "checkpoint", "n": k}, "err": err, "when": when, "delay_ms": delay}]
                     r = run_scenario(copy.deepcopy(sc))
                     acc.out["obs"]["failing_positions_enumerated"] += 1
@@ -137,7 +156,7 @@ def _cls(r, sname, err, when):
     return "%s|%s|%s|%s|%s" % (sname, err.get("status") or err.get("cls"), when, what, r.get("stop"))
 
 
-RULE = ("for each of ten program shapes (steps whose results force the overflow queue (800 KB, 3 x 450 KB in parallel), the failing request "
+RULE = ("for each of fourteen program shapes (incl. the retry attempt of an at-most-once step at top level and in a branch, and a branch whose record is handed over only after the failing call was answered and the queues drained) (steps whose results force the overflow queue (800 KB, 3 x 450 KB in parallel), the failing request "
         "answered at once or left in flight 15-40 ms so that other records queue up behind it; sequential with at-most-once step / wait / wait_for_condition; nested child contexts with a "
         "callback; parallel with running branches; map with suspended (timer, callback) and running branches; map with a branch "
         "re-submitted by the TimerScheduler while a sibling is held inside its step function, so the failing call is the timer thread's "
